@@ -1,10 +1,36 @@
 import Driver.JsonUtil
+import DSV.MTLS.Verify
 open Lean
 namespace Driver
-open DSV
+open DSV DSV.MTLS
 
-/-- op handlers of this area; return `none` for op names that are not handled here -/
+/-- what `x509.ParseCertificate` yields for a certificate *shape* of the harness:
+    `ed25519` / `ed25519-foreign` (Ed25519 subject key `key`, self-signed / signed by another key),
+    `ecdsa`, `rsa` (other key algorithms), anything else (`garbage`, `empty`, `truncated`,
+    `trailing`) does not parse -/
+def certOfShape (j : Json) : P (Option Cert) := do
+  let shape ← getStr j "shape"
+  match shape with
+  | "ed25519" | "ed25519-foreign" => do
+    let k ← getBytes j "key"
+    pure (some ⟨.ed25519, some k⟩)
+  | "ecdsa" => pure (some ⟨.ecdsa, none⟩)
+  | "rsa" => pure (some ⟨.rsa, none⟩)
+  | _ => pure none
+
+/-- op `mtls.verify` : `{"keys":["hex",…],"certs":[{"shape":…,"key":"hex"},…]}` →
+    `{"ok":true}` | `{"err":"no-keys|key-length|cert-count|parse|not-ed25519|invalid-key|unknown-key"}`.
+    The i-th raw certificate is represented by the byte string `[i]`; `parse` looks the shape up. -/
 def handleMtls (op : String) (j : Json) : Option (P Json) :=
   match op with
+  | "mtls.verify" => some (do
+      let keys ← (← getArr j "keys").mapM asBytes
+      let certs ← (← getArr j "certs").mapM certOfShape
+      let raws : List Bytes := (List.range certs.length).map fun i => [UInt8.ofNat i]
+      let parse : Bytes → Option Cert := fun b =>
+        match b with
+        | [i] => (certs[i.toNat]?).join
+        | _ => none
+      pure (jRes (fun _ => Json.bool true) (constructAndVerify parse keys raws)))
   | _ => none
 end Driver
